@@ -1,5 +1,5 @@
 (* C06, part 1: the splitting and joining functions of Model/Fields.v obey the FS rules.
-   Everything here is for ALL byte strings / chunk lists / match lists. *)
+   Everything here is for ALL byte strings and match lists. *)
 From Verif Require Import Lib.Base Lib.Dyadic Lib.Utf8 Lib.Regex Model.Fields.
 
 (* ---------------------------------------------------------------------- *)
@@ -114,64 +114,64 @@ Qed.
 
 
 (* ---------------------------------------------------------------------- *)
-(* FS = " ": strings.Fields over the chunks `range` visits                 *)
+(* FS = " ": io.go splitBlanks (runs of space, tab, newline)                *)
 
-Definition nonspace (c : bytes) : Prop := space_chunk c = false.
+Definition nonspace (c : Z) : Prop := is_blank c = false.
 
-(* the three laws that determine the function on every chunk list:
-   nothing from nothing; a space-free non-empty run is one field;
-   a space chunk between two parts separates them (and vanishes). *)
-Lemma fields_chunks_run f cur inf :
+(* the three laws that determine the function on every byte string:
+   nothing from nothing; a blank-free non-empty run is one field;
+   a blank between two parts separates them (and vanishes). *)
+Lemma fields_bytes_run f cur inf :
   Forall nonspace f -> (f <> [] \/ inf = true) ->
-  fields_chunks f cur inf = [cur ++ f].
+  fields_bytes f cur inf = [cur ++ f].
 Proof.
   revert cur inf; induction f as [|c f IH]; intros cur inf Hf Hne.
-  - destruct Hne as [Hne| ->]; [congruence|]. cbn [fields_chunks]. rewrite app_nil_r. reflexivity.
-  - inversion Hf as [|? ? Hc Hf']; subst. cbn [fields_chunks]. unfold nonspace in Hc. rewrite Hc.
+  - destruct Hne as [Hne| ->]; [congruence|]. cbn [fields_bytes]. rewrite app_nil_r. reflexivity.
+  - inversion Hf as [|? ? Hc Hf']; subst. cbn [fields_bytes]. unfold nonspace in Hc. rewrite Hc.
     rewrite IH; [|exact Hf'|right; reflexivity]. rewrite <- app_assoc. reflexivity.
 Qed.
 
-Lemma fields_chunks_sep a sp b cur inf :
-  space_chunk sp = true ->
-  fields_chunks (a ++ sp :: b) cur inf = fields_chunks a cur inf ++ fields_chunks b [] false.
+Lemma fields_bytes_sep a sp b cur inf :
+  is_blank sp = true ->
+  fields_bytes (a ++ sp :: b) cur inf = fields_bytes a cur inf ++ fields_bytes b [] false.
 Proof.
   intros Hsp. revert cur inf; induction a as [|c a IH]; intros cur inf.
-  - cbn [app fields_chunks]. rewrite Hsp. destruct inf; reflexivity.
-  - cbn [app fields_chunks]. destruct (space_chunk c).
+  - cbn [app fields_bytes]. rewrite Hsp. destruct inf; reflexivity.
+  - cbn [app fields_bytes]. destruct (is_blank c).
     + destruct inf; cbn [app]; rewrite IH; reflexivity.
     + apply IH.
 Qed.
 
-Theorem fields_chunks_nil : fields_chunks [] [] false = [].
+Theorem fields_bytes_nil : fields_bytes [] [] false = [].
 Proof. reflexivity. Qed.
 
-Theorem fields_chunks_one_run f :
-  Forall nonspace f -> f <> [] -> fields_chunks f [] false = [f].
-Proof. intros Hf Hne. rewrite fields_chunks_run; [reflexivity|exact Hf|left; exact Hne]. Qed.
+Theorem fields_bytes_one_run f :
+  Forall nonspace f -> f <> [] -> fields_bytes f [] false = [f].
+Proof. intros Hf Hne. rewrite fields_bytes_run; [reflexivity|exact Hf|left; exact Hne]. Qed.
 
-Theorem fields_chunks_separator a sp b :
-  space_chunk sp = true ->
-  fields_chunks (a ++ sp :: b) [] false = fields_chunks a [] false ++ fields_chunks b [] false.
-Proof. apply fields_chunks_sep. Qed.
+Theorem fields_bytes_separator a sp b :
+  is_blank sp = true ->
+  fields_bytes (a ++ sp :: b) [] false = fields_bytes a [] false ++ fields_bytes b [] false.
+Proof. apply fields_bytes_sep. Qed.
 
 (* consequences: leading / trailing / repeated spaces are ignored *)
-Corollary fields_chunks_leading sp b :
-  space_chunk sp = true -> fields_chunks (sp :: b) [] false = fields_chunks b [] false.
-Proof. intros H. exact (fields_chunks_separator [] sp b H). Qed.
+Corollary fields_bytes_leading sp b :
+  is_blank sp = true -> fields_bytes (sp :: b) [] false = fields_bytes b [] false.
+Proof. intros H. exact (fields_bytes_separator [] sp b H). Qed.
 
-Corollary fields_chunks_trailing a sp :
-  space_chunk sp = true -> fields_chunks (a ++ [sp]) [] false = fields_chunks a [] false.
-Proof. intros H. rewrite (fields_chunks_separator a sp [] H). cbn [fields_chunks]. apply app_nil_r. Qed.
+Corollary fields_bytes_trailing a sp :
+  is_blank sp = true -> fields_bytes (a ++ [sp]) [] false = fields_bytes a [] false.
+Proof. intros H. rewrite (fields_bytes_separator a sp [] H). cbn [fields_bytes]. apply app_nil_r. Qed.
 
-(* every field is a non-empty run of non-space chunks *)
-Lemma fields_chunks_all_ok cs : forall cur inf,
+(* every field is a non-empty run of non-blank bytes *)
+Lemma fields_bytes_all_ok cs : forall cur inf,
   Forall nonspace cur -> (inf = false -> cur = []) -> (inf = true -> cur <> []) ->
-  Forall (fun f => f <> [] /\ Forall nonspace f) (fields_chunks cs cur inf).
+  Forall (fun f => f <> [] /\ Forall nonspace f) (fields_bytes cs cur inf).
 Proof.
   induction cs as [|c cs IH]; intros cur inf Hcur Hf Ht.
-  - cbn [fields_chunks]. destruct inf; [|constructor].
+  - cbn [fields_bytes]. destruct inf; [|constructor].
     constructor; [|constructor]. split; [apply Ht; reflexivity|exact Hcur].
-  - cbn [fields_chunks]. destruct (space_chunk c) eqn:Ec.
+  - cbn [fields_bytes]. destruct (is_blank c) eqn:Ec.
     + destruct inf.
       * constructor; [split; [apply Ht; reflexivity|exact Hcur]|].
         apply IH; [constructor|reflexivity|discriminate].
@@ -182,25 +182,25 @@ Proof.
       * intros _. destruct cur; discriminate.
 Qed.
 
-Theorem fields_chunks_nonempty_spacefree cs :
-  Forall (fun f => f <> [] /\ Forall nonspace f) (fields_chunks cs [] false).
-Proof. apply fields_chunks_all_ok; [constructor|reflexivity|discriminate]. Qed.
+Theorem fields_bytes_nonempty_spacefree cs :
+  Forall (fun f => f <> [] /\ Forall nonspace f) (fields_bytes cs [] false).
+Proof. apply fields_bytes_all_ok; [constructor|reflexivity|discriminate]. Qed.
 
-(* the non-space chunks are kept, in order, and nothing else *)
-Lemma fields_chunks_concat cs : forall cur inf,
+(* the non-blank bytes are kept, in order, and nothing else *)
+Lemma fields_bytes_concat cs : forall cur inf,
   (inf = false -> cur = []) ->
-  concat (fields_chunks cs cur inf) = cur ++ filter (fun c => negb (space_chunk c)) cs.
+  concat (fields_bytes cs cur inf) = cur ++ filter (fun c => negb (is_blank c)) cs.
 Proof.
   induction cs as [|c cs IH]; intros cur inf Hc.
-  - cbn [fields_chunks filter]. destruct inf; cbn [concat]; rewrite ?app_nil_r; [reflexivity|].
+  - cbn [fields_bytes filter]. destruct inf; cbn [concat]; rewrite ?app_nil_r; [reflexivity|].
     rewrite Hc; reflexivity.
-  - cbn [fields_chunks filter]. destruct (space_chunk c) eqn:Ec; cbn [negb].
+  - cbn [fields_bytes filter]. destruct (is_blank c) eqn:Ec; cbn [negb].
     + destruct inf; cbn [concat]; rewrite IH by reflexivity; [reflexivity|].
       rewrite Hc; reflexivity.
     + rewrite IH by discriminate. rewrite <- app_assoc. reflexivity.
 Qed.
 
-(* byte level: no field of strings.Fields is empty *)
+(* utf8.DecodeRune consumes 1 to 4 bytes (used by Proofs/FieldsRegex.v) *)
 Lemma decode_rune_width_pos s : s <> [] -> 1 <= snd (decode_rune s) <= 4.
 Proof.
   destruct s as [|b0 t]; [congruence|intros _]. unfold decode_rune.
@@ -210,78 +210,21 @@ Proof.
          end; cbn [snd]; lia.
 Qed.
 
-Lemma runes_fuel_nonempty fuel s : Forall (fun c => c <> []) (runes_fuel fuel s).
+(* every field of the default split is non-empty and free of blanks *)
+Theorem split_blanks_fields_ok s :
+  Forall (fun f => f <> [] /\ Forall nonspace f) (split_blanks s).
+Proof. apply fields_bytes_nonempty_spacefree. Qed.
+
+(* and together they are the non-blank bytes of the record, in order *)
+Theorem split_blanks_concat s :
+  concat (split_blanks s) = filter (fun c => negb (is_blank c)) s.
+Proof. unfold split_blanks. rewrite fields_bytes_concat by reflexivity. reflexivity. Qed.
+
+(* the separators are exactly space, tab and newline *)
+Theorem is_blank_spec b : is_blank b = true <-> b = 32 \/ b = 9 \/ b = 10.
 Proof.
-  revert s; induction fuel as [|f IH]; intros s; cbn [runes_fuel]; [constructor|].
-  destruct s as [|b t] eqn:Es; [constructor|].
-  constructor; [|apply IH].
-  pose proof (decode_rune_width_pos (b :: t) ltac:(discriminate)) as Hw.
-  unfold ztake. destruct (Z.to_nat (snd (decode_rune (b :: t)))) eqn:En; [lia|].
-  cbn [firstn]. discriminate.
+  unfold is_blank. rewrite !orb_true_iff, !Z.eqb_eq. tauto.
 Qed.
-
-Lemma concat_nonempty (l : list bytes) :
-  l <> [] -> Forall (fun c => c <> []) l -> concat l <> [].
-Proof.
-  destruct l as [|c l]; [congruence|]. intros _ H. inversion H; subst.
-  cbn [concat]. destruct c; [congruence|discriminate].
-Qed.
-
-Theorem strings_fields_nonempty s : Forall (fun f => f <> []) (strings_fields s).
-Proof.
-  unfold strings_fields. apply Forall_map.
-  pose proof (fields_chunks_nonempty_spacefree (runes s)) as H1.
-  assert (Forall (fun f => Forall (fun c : bytes => c <> []) f) (fields_chunks (runes s) [] false)) as H2.
-  { assert (Hc : Forall (fun c : bytes => c <> []) (concat (fields_chunks (runes s) [] false))).
-    { rewrite fields_chunks_concat by reflexivity. cbn [app].
-      apply Forall_forall. intros c Hin. apply filter_In in Hin as [Hin _].
-      pose proof (runes_fuel_nonempty (length s) s) as Hr.
-      rewrite Forall_forall in Hr. apply Hr. exact Hin. }
-    apply Forall_forall. intros f Hf. apply Forall_forall. intros c Hc'.
-    rewrite Forall_forall in Hc. apply Hc. apply in_concat. exists f. split; assumption. }
-  rewrite Forall_forall in *. intros f Hf. apply concat_nonempty; [apply H1; exact Hf|apply H2; exact Hf].
-Qed.
-
-(* The set of separators.  The property text says "blanks"; the code uses unicode.IsSpace.
-   They agree on every record whose chunks are not one of the extra White_Space
-   characters (VT FF CR NEL NBSP U+1680 U+2000-200A U+2028 U+2029 U+202F U+205F U+3000). *)
-Definition blank_chunk (c : bytes) : bool :=
-  let r := rune_of c in (r =? 32) || (r =? 9) || (r =? 10).
-
-Fixpoint fields_by (p : bytes -> bool) (cs cur : list bytes) (inf : bool) : list (list bytes) :=
-  match cs with
-  | [] => if inf then [cur] else []
-  | c :: cs' =>
-      if p c then (if inf then cur :: fields_by p cs' [] false else fields_by p cs' [] false)
-      else fields_by p cs' (cur ++ [c]) true
-  end.
-
-Lemma fields_chunks_is_fields_by cs cur inf : fields_chunks cs cur inf = fields_by space_chunk cs cur inf.
-Proof. revert cur inf; induction cs as [|c cs IH]; intros; cbn [fields_chunks fields_by]; rewrite ?IH; reflexivity. Qed.
-
-Lemma fields_by_ext p q cs cur inf :
-  Forall (fun c => p c = q c) cs -> fields_by p cs cur inf = fields_by q cs cur inf.
-Proof.
-  revert cur inf; induction cs as [|c cs IH]; intros cur inf H; [reflexivity|].
-  inversion H; subst. cbn [fields_by]. rewrite H2, !IH by assumption. reflexivity.
-Qed.
-
-(* the split on blanks, as the property text has it *)
-Definition blank_fields (s : bytes) : list bytes :=
-  map (@concat Z) (fields_by blank_chunk (runes s) [] false).
-
-Theorem strings_fields_blank_partial s :
-  Forall (fun c => space_chunk c = blank_chunk c) (runes s) ->
-  strings_fields s = blank_fields s.
-Proof.
-  intros H. unfold strings_fields, blank_fields.
-  rewrite fields_chunks_is_fields_by, (fields_by_ext _ _ _ _ _ H). reflexivity.
-Qed.
-
-(* "a<NBSP>b": one field by the text of the property, two in the code *)
-Theorem strings_fields_blank_refuted :
-  exists s, strings_fields s <> blank_fields s.
-Proof. exists [97; 194; 160; 98]. vm_compute. discriminate. Qed.
 
 (* ---------------------------------------------------------------------- *)
 (* regex FS: splitOnFieldSepRegex                                           *)
